@@ -306,6 +306,22 @@ theorem C13_put_sites : Gen.poolPuts =
 theorem C13_copy_out : Gen.copyOuts = [("packet.(*Writer).Bytes", true), ("packet.(*Writer).BytesWithLength", true)] := by
   decide +kernel
 
+/-- **C13_shared_state** (regenerated from the syntax and types of the working tree, `go/extract/globals.go`):
+    the only package-level variables any function outside `init` can write — by assignment to or
+    through them, `++`, `&v`, a pointer-receiver method, `copy`/`delete`, an alias, or by handing a
+    table to foreign code — are the three configuration variables of the logger package, written by
+    their setters (set-up API, not one of the calls the property quantifies over); and the only
+    self-synchronising shared objects are the three pools.  Every other package-level variable is
+    therefore read-only after initialisation: the threads of the model share the pool and nothing
+    else.  A lookup table grown on demand, a cache or a counter changes `globalWrites`. -/
+theorem C13_shared_state :
+    Gen.globalWrites = [("logger.logger", "logger.SetLogger", "assign"),
+                        ("logger.silentMode", "logger.SetSilentMode", "assign"),
+                        ("logger.sysLogger", "logger.SetSystemLogger", "assign")] ∧
+    (Gen.packageVars.filter (fun v => v.2.1 == "pool")).map (·.1)
+      = ["cmpp.ucs2BytesBufferPool", "logger.builderPool", "packet.stringBuilderPool"] := by
+  decide
+
 /-! ### teeth: returning the buffer before copying out breaks it -/
 
 def runEarly (s : Sys) (sched : List Nat) : Sys := sched.foldl Sys.stepEarlyPut s
@@ -331,3 +347,4 @@ end SmsVerif.C13
 #print axioms SmsVerif.C13.C13_pool_discipline
 #print axioms SmsVerif.C13.C13_put_sites
 #print axioms SmsVerif.C13.C13_copy_out
+#print axioms SmsVerif.C13.C13_shared_state
